@@ -205,7 +205,7 @@ def one_message(R, L, msg):
         if d:
             R.violation(f'cell-denotes-other-message-{d.split(":")[0].split(".")[1] if "." in d.split(":")[0] else "structure"}', f'the serialised cell decodes (block.tlb) to another message: {d}', W)
         # (3) the library's own parser
-        st, back = mon.call(lambda: L.tr.MessageAny.deserialize(cell.begin_parse()))
+        st, back = mon.call(parse_and_drain, L, cell)
         if st == 'exc':
             R.violation(f'deserialize-own-raises-{type(back).__name__}', f'MessageAny.deserialize of its own cell raised {back!r}', W)
         else:
@@ -222,7 +222,7 @@ def one_message(R, L, msg):
         except rc.RefError:
             R.count('placements_not_fitting')
             continue
-        st, back = mon.call(lambda: L.tr.MessageAny.deserialize(bridge.to_lib(enc).begin_parse()))
+        st, back = mon.call(parse_and_drain, L, bridge.to_lib(enc))
         R.counters['oracle_evaluations'] += 1
         R.count('alternative_encodings_parsed')
         R.cover('alternative_placements', (ip if msg.get('init') is not None else None, bp))
@@ -237,6 +237,16 @@ def one_message(R, L, msg):
                         f'a valid encoding (init {ip}, body {bp}) parses to another message: {d}', dict(W, boc=rc.encode_boc([enc])))
     R.case(mon.fp('msg', W['boc_ref_ref']), sample=describe(msg))
     R.cover('header_kinds', msg['info']['_'])
+
+
+def parse_and_drain(L, cell):
+    """parse a message from a slice, then read whatever the slice still holds: the parsed object is the caller's and must not depend on the slice any more"""
+    sl = cell.begin_parse()
+    m = L.tr.MessageAny.deserialize(sl)
+    sl.skip_bits(sl.remaining_bits)
+    while sl.remaining_refs:
+        sl.load_ref()
+    return m
 
 
 def edited_message(R, L, msg, lm, W):
